@@ -10,6 +10,17 @@ def collect(ctx, props, plans, design=(), report_deaths=False, me=1):
     run.build()
     design_cov, all_behs = [], []
     mismatches = []
+    stored = None
+    if ctx.replay:
+        # --replay <file>: the stored case is re-derived by TLC (Guide) and replayed alone
+        try:
+            rp = json.load(open(ctx.replay)).get("replay") or {}
+            if rp.get("steps") and "world" not in rp and "cluster_behaviour" not in rp:
+                stored = rp["steps"]
+        except (OSError, ValueError):
+            stored = None
+    if stored is not None:
+        plans, design = [], []
 
     def do_replay(behs, label):
         if not behs:
@@ -77,6 +88,12 @@ def collect(ctx, props, plans, design=(), report_deaths=False, me=1):
             ctx.log("replaying %d design-counterexample witnesses on the real state machine" % len(wit))
             do_replay(wit, "witness")
             all_behs += wit[:1]
+    if stored is not None:
+        b = run.guided(stored)
+        if not b:
+            raise vlib.Inconclusive("the stored behaviour is not a behaviour of the current spec")
+        do_replay(b, "stored")
+        all_behs += b[:1]
     for p in plans:
         if p.get("cover"):
             consts = {"MaxSteps": p["steps"], "AvoidPanics": "TRUE" if p.get("avoid", True) else "FALSE",
